@@ -353,7 +353,7 @@ def run(run):
         gl = g_grammar(cg)
         selfreach = self_reachable(cg)
         ct, et = cost_tables(g, cg)
-        k_sh = gi % N_SHARDS
+        k_sh = gi % (30 if thorough else N_SHARDS)
         while len(shards) <= k_sh:
             shards.append(([], [], [], []))      # grammars, cost tables, ecost tables, cases
             smeta.append([])
